@@ -69,7 +69,7 @@ func sweepCase(c *h.Case, sc sweepCfg) {
 	if sc.SrvMode == "ca" {
 		t.Cert = "good"
 	}
-	cc, _, _, err := h.LoadClientConfig(prop, clientCommonTOML(ps.Bind, ps.Token, tag+"-ctl", sc.Protocol, sc.Mux, false, 0, t, true))
+	cc, _, _, err := h.LoadClientConfig(prop, clientCommonTOML(ps.Bind, ps.clientAuth(), tag+"-ctl", sc.Protocol, sc.Mux, false, 0, t, true))
 	if err == nil {
 		p, derr := h.DialPeer(h.PeerOpts{Common: cc, Token: ps.Token, User: tag + "-ctl"})
 		ok := p != nil && p.LoggedIn()
